@@ -198,6 +198,14 @@ def gen_transfer(rng, cfg, types, nsubs=1, reenter=False, maxsize=40,
         # the caller supplies the checksum of the whole object ('@full' is
         # replaced by the CRC32 of the source data when the transfer is built)
         spec['extra_args'] = {'ChecksumCRC32': '@full'}
+    elif ty in ('upload', 'copy') and rng.random() < 0.12:
+        # customer-provided encryption key: arguments that only SOME of the
+        # operations of a multipart transfer accept (the stub validates every
+        # call against the service model, as botocore does)
+        spec['extra_args'] = {'SSECustomerAlgorithm': 'AES256',
+                              'SSECustomerKey': '0123456789abcdef0123456789abcdef'}
+    if ty in ('upload', 'copy') and rng.random() < 0.1:
+        spec['periodic'] = True     # every part holds the same bytes
     return spec
 
 
@@ -568,6 +576,20 @@ def gen_C02(rng):
 def gen_C03(rng):
     sc = base(rng, ALL_TYPES, nmax=2, short_reads=True, maxsize=24)
     n = len(sc['transfers'])
+    if rng.random() < 0.05:
+        # use_threads=False: every step runs on the caller's thread, where a
+        # Ctrl-C can arrive inside a request, a read, a write or a callback
+        sc['knobs']['serial'] = True
+        sc['knobs']['line_preempt'] = False
+        sc['knobs']['stalls'] = []
+        i = rng.randrange(n)
+        fs_ = gen_fatal_fault(rng, i, sc['transfers'][i], sc['config'])
+        for f in fs_:
+            if f.get('site') in ('s3', 'src', 'dst', 'cb'):
+                f['exc'] = 'kbi'
+        sc['faults'] += fs_
+        _dedupe_stream(sc)
+        return sc
     i = rng.randrange(n)
     sc['faults'] += gen_fatal_fault(rng, i, sc['transfers'][i], sc['config'])
     if rng.random() < 0.3:
@@ -578,6 +600,11 @@ def gen_C03(rng):
             if t['type'] == 'download':
                 sc['faults'] += gen_stream_retries(rng, k, t, sc['config'], 1)
     _dedupe_stream(sc)
+    for f in sc['faults']:
+        if f.get('site') in ('cb', 'src', 'dst') and rng.random() < 0.15:
+            # the failing step raises the package's own CancelledError although
+            # nobody cancelled this transfer
+            f['exc'] = 'cancellederr'
     if rng.random() < 0.2:
         # ... and the manager is told to cancel everything while the failed
         # transfer still has tasks in flight: the failure recorded first stays
@@ -925,6 +952,23 @@ def gen_C11(rng):
     sc['knobs']['latency'] = wchoice(rng, [('none', 2), ('random', 3), ('slow_first', 4),
                                            ('slow_last', 1)])
     sc['knobs']['adjuster']['max_parts'] = 10000
+    if kind == 'up' and rng.random() < 0.25:
+        # the part-count limit in play: known sizes at and around
+        # max_parts x chunksize (x 2^j), where the chunk size may double only
+        # if the parts would otherwise not fit
+        m = rng.choice([2, 3, 4])
+        sc['knobs']['adjuster']['max_parts'] = m
+        cfg = sc['config']
+        for t in sc['transfers']:
+            t['size'] = max(cfg['multipart_threshold'],
+                            m * cfg['multipart_chunksize'] * rng.choice([1, 1, 2]) +
+                            rng.choice([0, 0, 0, -1, 1]))
+            if t['src'] == 'nonseekable' and rng.random() < 0.6 and t['subs']:
+                t['subs'][0]['provide_size'] = t['size']
+            for sub in t['subs']:
+                if sub.get('provide_size') is not None:
+                    sub['provide_size'] = t['size']
+        sc['max_steps'] = 60 * est_steps(sc['transfers'], cfg) + 20000
     if rng.random() < 0.5:
         sc['strategy'] = ['starve', rng.choice(['io', 'request']), 0.5]
     _maybe_disturb(rng, sc)
@@ -973,6 +1017,17 @@ def gen_C16(rng):
         else:
             sc['faults'].append({'site': 'dst', 't': i, 'nth': rng.randint(0, 3), 'exc': exc,
                                  'partial': rng.randint(0, 7)})
+    elif rng.random() < 0.08 and not sc.get('driver'):
+        # use_threads=False: the writes run on the caller's thread, where a
+        # Ctrl-C can arrive in the middle of one
+        sc['knobs']['serial'] = True
+        sc['knobs']['line_preempt'] = False
+        sc['knobs']['stalls'] = []
+        i = rng.randrange(len(sc['transfers']))
+        if sc['transfers'][i]['dst'] == 'fifo':
+            sc['transfers'][i]['dst'] = 'nonseekable'
+        sc['faults'] = [f for f in sc['faults'] if f.get('site') != 'dst']
+        sc['faults'].append({'site': 'dst', 't': i, 'nth': rng.randint(0, 4), 'exc': 'kbi'})
     return sc
 
 
@@ -1268,6 +1323,13 @@ def gen_C18(rng):
     else:
         script = [['use_with']] + script
     sc['driver'] = script
+    if rng.random() < 0.06 and sc.get('driver'):
+        # a call the manager rejects somewhere in between: it must leave
+        # nothing behind that a later shutdown waits for
+        script = sc['driver']
+        pos = rng.randint(0, max(0, len(script) - 1))
+        sc['driver'] = script[:pos] + [['bad_call', rng.choice(['upload', 'download', 'copy',
+                                                                 'delete'])]] + script[pos:]
     return sc
 
 
